@@ -210,6 +210,43 @@ def run(ctx):
             if m != ids and r2 == root:
                 res.violations.append({"kind": "the header commitment is unchanged by '%s' of the transaction list" % kind,
                                        "ids": [x.hex() for x in ids], "edited": [x.hex() for x in m]})
+    # … and where the node enforces it: a block whose header keeps the commitment of its original list while one entry of the
+    # list is substituted must be refused by the node's block validation — for lists of one (reward only), two and more entries
+    from . import chain, ledger
+    from skepticoin import consensus as _consensus
+    from skepticoin.datatypes import Block as _Block
+    chain.patch(horizon=-1)
+    keys_ = chain.Keys(rng, 4)
+    tree_ = chain.Tree(rng, keys_)
+    tree_.grow(4, fork_prob=0.0)
+    for n_tx in (0, 0, 1, 2, 3):
+        parent_state = tree_.cs
+        blk = tree_.extend(n_tx=n_tx)
+        for pos in range(len(blk.transactions)):
+            if pos == 0:
+                sub_tx = ledger.coinbase(blk.height, chain.subsidy(blk.height), keys_.pk(rng.randrange(0, 4)), data=b"substituted")
+            else:
+                sub_tx = tree_.random_tx(blk.previous_block_hash)
+                if sub_tx is None or sub_tx.hash() == blk.transactions[pos].hash():
+                    continue
+            forged = _Block(blk.header, list(blk.transactions[:pos]) + [sub_tx] + list(blk.transactions[pos + 1:]))
+            for how in ("validate_block_by_itself", "add_block"):
+                try:
+                    if how == "add_block":
+                        parent_state.add_block(forged, blk.timestamp + 5)
+                    else:
+                        _consensus.validate_block_by_itself(forged, blk.timestamp + 5)
+                    accepted = True
+                except Exception:
+                    accepted = False
+                res.case(("forged-list", blk.hash(), pos, how), nontrivial=True)
+                res.count("substituted_entry_under_the_original_header:%d_entries" % len(blk.transactions))
+                if accepted:
+                    res.violations.append({"kind": "%s accepts a block of %d transaction(s) in which entry %d was substituted while the "
+                                                   "header keeps the commitment of the original list"
+                                                   % (how, len(blk.transactions), pos),
+                                           "block": forged.serialize().hex(), "original": blk.serialize().hex()})
+    chain.unpatch()
     model = ctx.driver.ask(ops)
     kit.compare(res, ops, impl, model)
     res.exhaustive = True
